@@ -120,6 +120,12 @@ def judge_c02(rec):
             t_rel = rel[-1][1] if rel[-1][1] is not None else us(trec["obj"].release_time)
             if t_rel is not None and t_start < t_rel:
                 V.append(Violation("start_before_release", f"{key} started at {t_start}, released at {t_rel}; {short(spec)}", "c02.start_before_release"))
+            # the release time the workload asked for (graph release, closed-loop follow-up = completion + 1): the release
+            # *event* may come later than that, never earlier
+            intended = trec["obj"].intended_release_time
+            if intended is not None and not intended.is_invalid() and us(intended) >= 0 and t_start < us(intended):
+                V.append(Violation("start_before_intended_release", f"{key} started at {t_start} but the workload releases it at {us(intended)} "
+                                                                    f"(release event at {t_rel}); {short(spec)}", "c02.start_before_intended_release"))
         info = sp.get(name)
         if info is None:
             continue
@@ -531,6 +537,13 @@ def judge_c07(rec):
                 resolved += 1
             tag = ".nested" if _nested(spec, base) else ""
             all_zero = all(init_p[k] <= 0 for k in kids)
+            spec_p = {k: jobs[k].get("probability", 1.0) for k in kids}
+            if all_zero and any(p > 0 for p in spec_p.values()):
+                # the description gives some child a chance, the instantiated graph gives none: the conditional ran (it is
+                # COMPLETED) and no branch can follow it
+                V.append(Violation("instantiation_zeroed_every_branch", f"{c}@{gname} completed; described probabilities {spec_p}, at instantiation {init_p}, "
+                                                                         f"children states { {k: state[k] for k in kids} }; {short(spec)}", "c07.instantiation_zeroed_every_branch" + tag))
+                continue
             if all_zero:
                 if alive and strict:
                     V.append(Violation("zero_probability_branch_alive", f"{c}@{gname}: all children have probability 0 but {alive} are not cancelled; {short(spec)}", "c07.zero_probability_branch_alive" + tag))
